@@ -336,6 +336,11 @@ class Interp:
             return any(self.match_pattern(x, v, env) for x in p.patterns)
         if isinstance(p, ast.MatchClass):
             cname = ast.unparse(p.cls)
+            native = {'int': int, 'float': float, 'str': str, 'bool': bool, 'Fraction': __import__('fractions').Fraction}
+            if cname in native and not isinstance(v, Obj):
+                if cname == 'int' and isinstance(v, bool):
+                    return not p.patterns and not p.kwd_attrs      # bool is an int, as in Python
+                return isinstance(v, native[cname]) and not p.patterns and not p.kwd_attrs
             if not (isinstance(v, Obj) and self.is_a(v.kind, cname)):
                 return False
             if p.patterns:
